@@ -3,6 +3,7 @@
    A case is a list of numbers; the first is the case kind. *)
 From Coq Require Import NArith List Bool.
 From PDB Require Import Gen.Consts Model.IndexPage Model.Pipeline Model.Meta Model.Migrate Model.ValueTable Model.MultiTree Model.BTreeIter Model.BTreeCheck Model.Wal Model.WalCodec Model.StorageCheck Model.Lock Model.Readers Model.TableAlloc Model.IndexSlots Model.BTreeMut.
+From PDB Require Model.RcTable.
 Import ListNotations.
 Open Scope N_scope.
 
@@ -557,6 +558,42 @@ Definition run_c09_slots (l : list N) : list N :=
   | _ => err_marker
   end.
 
+(* ---- kind 111: reference count tables. 111 bits nops op* ; op: 1 a h (a node gains a reference) | 2 a h (loses one) |
+   3 (reindex batch) | 4 (restart); 11 a h / 12 a h: the same inside a transaction (no dump in between).
+   Output after every op: number of tables, then per table (oldest first, the current one last):
+   bits, number of non-empty chunks, per chunk (ascending): chunk, number of entries, (slot, address, count)* ---- *)
+Fixpoint enc_rslots (l : list RcTable.rslot) (i : N) : list N :=
+  match l with
+  | [] => []
+  | Some e :: r => i :: RcTable.r_addr e :: RcTable.r_count e :: enc_rslots r (i + 1)
+  | None :: r => enc_rslots r (i + 1)
+  end.
+Definition enc_rtab (g : RcTable.rtab) : list N :=
+  let ps := RcTable.chunks_from g 0 in
+  RcTable.t_bits g :: N.of_nat (length ps) ::
+  flat_map (fun p => p :: N.of_nat (length (RcTable.chunk_entries (RcTable.get_chunk g p))) :: enc_rslots (RcTable.get_chunk g p) 0) ps.
+Definition enc_rstate (st : RcTable.rstate) : list N :=
+  N.of_nat (S (length (RcTable.rqueue st))) :: flat_map enc_rtab (RcTable.rqueue st ++ [RcTable.rcur st]).
+Fixpoint rc_trace (fuel : nat) (l : list N) (st : RcTable.rstate) : list N :=
+  match fuel with
+  | O => []
+  | S f =>
+      match l with
+      | 1 :: a :: h :: r => let st' := RcTable.rstep st (RcTable.RInc a h) in enc_rstate st' ++ rc_trace f r st'
+      | 2 :: a :: h :: r => let st' := RcTable.rstep st (RcTable.RDec a h) in enc_rstate st' ++ rc_trace f r st'
+      | 11 :: a :: h :: r => rc_trace f r (RcTable.rstep st (RcTable.RInc a h))
+      | 12 :: a :: h :: r => rc_trace f r (RcTable.rstep st (RcTable.RDec a h))
+      | 3 :: r => let st' := RcTable.rstep st RcTable.RReindex in enc_rstate st' ++ rc_trace f r st'
+      | 4 :: r => let st' := RcTable.rstep st RcTable.RRestart in enc_rstate st' ++ rc_trace f r st'
+      | _ => []
+      end
+  end.
+Definition run_rc_tables (l : list N) : list N :=
+  match l with
+  | bits :: n :: rest => rc_trace (N.to_nat n) rest (RcTable.rinit bits)
+  | _ => err_marker
+  end.
+
 (* ---- kind 104: btree mutation. 104 nops (1 k | 2 k)* ; 1 k: key k is set, 2 k: key k is removed (it is there).
    Output after every op: depth, then the tree: node := nseps inner first? (key child?)* ---- *)
 Fixpoint enc_btn (fuel : nat) (depth : nat) (t : btn) : list N :=
@@ -647,6 +684,7 @@ Definition dispatch (l : list N) : list N :=
   | 14 :: rest => run_c14 rest
   | 114 :: rest => run_c14_alloc rest
   | 109 :: rest => run_c09_slots rest
+  | 111 :: rest => run_rc_tables rest
   | 104 :: rest => run_c04_mut rest
   | 5 :: rest => run_c05 rest
   | 18 :: rest => run_c18 rest
